@@ -111,4 +111,21 @@ theorem C12_db_history_determines_reads {o : Opts} {hist : List Ent} {d1 d2 : Db
   have h2 : d2.readMark.doneUntil ≤ ts := by simpa using h2
   rw [C01_reach_reads R1 (by omega) (by omega) k, C01_reach_reads R2 (by omega) (by omega) k]
 
+/-- **C07 inside a history**: `Close` + `Open` (memtable flushed, L0 re-sorted by file id, oracle
+    and watermarks rebuilt from `MaxVersion()`) changes no read at a timestamp at or above both
+    watermarks — as long as the timestamps do not go back (`hnext`; the excluded case is F29). -/
+theorem C07_db_reopen_preserves_reads {o : Opts} {hist : List Ent} {d : Db} (hm : o.managed = false)
+    (r : DbReach o hist d) (fid : Nat)
+    (hnext : d.nextTs ≤ ({ d with lsm := d.lsm.flush fid } : Db).closeOpen.nextTs) (k : Bytes) (ts now : Nat)
+    (h1 : d.discardAtOrBelow ≤ ts) (h2 : ({ d with lsm := d.lsm.flush fid } : Db).closeOpen.discardAtOrBelow ≤ ts)
+    (hn : d.now ≤ now) :
+    visible now (({ d with lsm := d.lsm.flush fid } : Db).closeOpen.lsm.get k ts) = visible now (d.lsm.get k ts) := by
+  have hn2 : ({ d with lsm := d.lsm.flush fid } : Db).closeOpen.now ≤ now := by
+    have := (DbL.closeOpen_fields ({ d with lsm := d.lsm.flush fid } : Db)).2.1
+    rw [this]; exact hn
+  exact (C12_db_history_determines_reads hm r (DbReach.reopen r fid hnext) k ts now h1 h2 hn hn2).symm
+
+/- A transaction begun after the reopen reads the commit history as before: `DbReach.reopen` is a step
+   of `DbReach`, so `C01_db_snapshot`, `C05_db_scan*`, `C02_db_*` apply to the reopened state unchanged. -/
+
 end Badger
